@@ -989,11 +989,10 @@ class Connection (EventMixin):
           (ofp.type == self._previous_stats[0].type)):
         self._previous_stats.append(ofp)
       else:
-        log.error("Was expecting continued stats of type %i with xid %i, " +
-                  "but got type %i with xid %i" %
-                  (self._previous_stats_reply.xid,
-                    self._previous_stats_reply.type,
-                    ofp.xid, ofp.type))
+        log.error("Was expecting continued stats of type %i with xid %i, "
+                  "but got type %i with xid %i",
+                  self._previous_stats[0].type, self._previous_stats[0].xid,
+                  ofp.type, ofp.xid)
         self._previous_stats = [ofp]
     else:
       self._previous_stats = [ofp]
